@@ -1,4 +1,3 @@
-import numpy as np
 from autode.log import logger
 from typing import Optional, TYPE_CHECKING
 
@@ -23,5 +22,11 @@ class TransitionStates(list):
             logger.error("Have no transition states so no lowest energy TS")
             return None
 
-        min_idx = np.argmin([ts.energy for ts in self])
-        return self[min_idx]
+        tss_with_energy = [ts for ts in self if ts.energy is not None]
+
+        if len(tss_with_energy) == 0:
+            logger.warning("Have no transition states with an energy")
+            return self[0]
+
+        # Energies may be in different units so compare in Hartrees
+        return min(tss_with_energy, key=lambda ts: float(ts.energy.to("Ha")))
